@@ -1559,42 +1559,86 @@ pub fn vh_mac(a: &Args) {
     println!("events={} histories={h}", out.finish());
 }
 
-/// `vh macmc in=FILE fronts=nb,async`: behaviours of the specification (MCMacCmdGen: one per reachable design
-/// state) executed on the real devices.  Each line of FILE is {"region": R, "steps": [{"t": "down", "fopts": [..]} |
-/// {"t": "up"}]}: an ABP session, then one unconfirmed uplink per step; a "down" step delivers, in RX1 (or RX2 for
-/// every second history), an authentic downlink with the next downlink counter carrying the command bytes in FOpts.
+/// `vh macmc in=FILE fronts=nb,async`: behaviours of the specification (MCMacCmdGen, MCJoin: one per reachable
+/// design state) executed on the real devices.  Each line of FILE is {"region": R, "steps": [...]} with steps
+///   {"t": "join", "win": 1|2, "dl": DLSettings, "del": RxDelay, "cf": [] | [16 bytes]}   OTAA join accepted in that window
+///   {"t": "nojoin" | "forged" | "dataframe"}   OTAA join attempt without / with a forged accept / with a data frame
+///   {"t": "down", "fopts": [..]}   unconfirmed uplink answered by an authentic downlink (next counter) with FOpts
+///   {"t": "up"}                    unconfirmed uplink, nothing received
+/// A behaviour without join steps starts from an ABP session.  Frames are built against the device's current
+/// session (keys and downlink counter read from the device, as a network server would hold them).
 pub fn vh_macmc(a: &Args) {
     let text = std::fs::read_to_string(a.get("in").expect("in=FILE")).unwrap();
     let fronts: Vec<String> = a.get("fronts").unwrap_or("nb,async").split(',').map(|s| s.to_string()).collect();
     let mut out = crate::cli::Shards::create(&a.out, "mac", a.shards);
     let key = [1u8; 16];
+    let appkey = [7u8; 16];
     let addr = [1u8, 2, 3, 4];
-    let net = Net { nwk: key, app: key, addr, sent: vec![] };
     let mut h = 0usize;
+    let mut bi = 0usize;
     for line in text.lines().filter(|l| !l.trim().is_empty()) {
         let v: Value = serde_json::from_str(line).unwrap();
         let region = v["region"].as_str().unwrap().to_string();
-        for front in &fronts {
-            let mut ops = vec![
-                Op::Reset {
-                    region: region.clone(), front: front.clone(), classc: false, board: 0, bias_sb: 0, bias_retries: 1,
-                    lead: 10, buffer: 10, offset: 0, duration: 500, session: None,
-                },
-                Op::JoinAbp { nwk: key, app: key, addr },
-            ];
-            let mut ndown = 0u32;
-            for st in v["steps"].as_array().unwrap() {
-                let mut plan = Proc { tx: "done".into(), ts: 100, fault: -1, ..Default::default() };
-                if st["t"] == "down" {
-                    let fopts: Vec<u8> = st["fopts"].as_array().unwrap().iter().map(|b| b.as_u64().unwrap() as u8).collect();
-                    let bytes = net.data(ndown, false, false, &fopts, -1, &[], false, false);
-                    let f = Frame { bytes, snr: 5, intent: format!("auth:mc:{}", fopts.len()) };
-                    if h % 2 == 0 { plan.rx1.push(f) } else { plan.rx2.push(f) }
-                    ndown += 1;
-                }
-                ops.push(Op::Send { port: 1, data: vec![7], confirmed: false, draws: vec![], plan });
+        let steps: Vec<Value> = v["steps"].as_array().unwrap().clone();
+        let otaa = steps.iter().any(|s| ["join", "nojoin", "forged", "dataframe"].contains(&s["t"].as_str().unwrap_or("")));
+        bi += 1;
+        // fronts=alt: behaviours alternate between the nb and the async device (quick tier)
+        let these: Vec<String> = if fronts.len() == 1 && fronts[0] == "alt" { vec![["nb", "async"][bi % 2].to_string()] } else { fronts.clone() };
+        for front in &these {
+            let mut ops = vec![Op::Reset {
+                region: region.clone(), front: front.clone(), classc: false, board: 0, bias_sb: 0, bias_retries: 1,
+                lead: 10, buffer: 10, offset: 0, duration: 500, session: None,
+            }];
+            if !otaa {
+                ops.push(Op::JoinAbp { nwk: key, app: key, addr });
             }
-            let _ = run_history(out.shard(h), &ops, a.seed ^ h as u64, None);
+            let mut idx = 0usize;
+            let mut jn = 0u32;
+            let alt = (h / 2) % 2 == 1;
+            let mut g = |view: &View| -> Option<Op> {
+                let st = steps.get(idx)?;
+                idx += 1;
+                let mut plan = Proc { tx: "done".into(), ts: 100, fault: -1, ..Default::default() };
+                let t = st["t"].as_str().unwrap();
+                match t {
+                    "join" | "nojoin" | "forged" | "dataframe" => {
+                        jn += 1;
+                        let nonce = [jn as u8, (jn >> 8) as u8, 0x10];
+                        match t {
+                            "join" | "forged" => {
+                                let cf: Vec<u8> = st["cf"].as_array().map(|x| x.iter().map(|b| b.as_u64().unwrap() as u8).collect()).unwrap_or_default();
+                                let (cftype, body): (i32, Vec<u8>) = if cf.len() == 16 { (cf[15] as i32, cf[..15].to_vec()) } else { (-1, vec![0; 15]) };
+                                let k = if t == "join" { appkey } else { [8u8; 16] };
+                                let dl = st["dl"].as_u64().unwrap_or(0) as u8;
+                                let del = st["del"].as_u64().unwrap_or(0) as u8;
+                                let bytes = Net::join_accept(&k, nonce, [1, 2, 3], addr, dl, del, cftype, &body);
+                                let f = Frame { bytes, snr: 4, intent: format!("ja:mc:{t}:dl={dl:#04x}:del={del}:cf={cftype}") };
+                                if st["win"].as_u64().unwrap_or(1) == 2 { plan.rx2.push(f) } else { plan.rx1.push(f) }
+                            }
+                            "dataframe" => {
+                                let net = Net { nwk: key, app: key, addr, sent: vec![] };
+                                let bytes = net.data(0, false, false, &[], 1, &[1, 2, 3], false, false);
+                                plan.rx1.push(Frame { bytes, snr: 4, intent: "data-during-join".into() });
+                            }
+                            _ => {}
+                        }
+                        Some(Op::JoinOtaa { appkey, deveui: [1, 2, 3, 4, 5, 6, 7, 8], appeui: [8, 7, 6, 5, 4, 3, 2, 1], draws: vec![], plan })
+                    }
+                    _ => {
+                        if t == "down" {
+                            let fopts: Vec<u8> = st["fopts"].as_array().unwrap().iter().map(|b| b.as_u64().unwrap() as u8).collect();
+                            let (nwk, app, ad) = view.keys.unwrap_or((key, key, addr));
+                            let net = Net { nwk, app, addr: ad, sent: vec![] };
+                            let n = view.fcnt_down.map(|x| x + 1).unwrap_or(0);
+                            let bytes = net.data(n, false, false, &fopts, -1, &[], false, false);
+                            let f = Frame { bytes, snr: 5, intent: format!("auth:mc:{}", fopts.len()) };
+                            if alt { plan.rx2.push(f) } else { plan.rx1.push(f) }
+                        }
+                        Some(Op::Send { port: 1, data: vec![7], confirmed: false, draws: vec![], plan })
+                    }
+                }
+            };
+            let _ = run_history(out.shard(h), &ops, a.seed ^ h as u64, Some(&mut g));
             h += 1;
         }
     }
